@@ -103,8 +103,8 @@ pub fn run(env: &Env) -> Report {
             let keys = match keys_for(&inv, word) { Some(k) => k, None => { untypeable += 1; continue; } };
             let ci = if env.quick() { rng.below(ctxs.len()) } else { (ui * per + wi) % ctxs.len() };
             let (o, s) = &mut ctxs[ci];
-            let wrap = rng.below(6);
-            let (lead, trail): (&str, &str) = match wrap { 0 => ("\"", "\""), 1 => ("(", ")"), 2 => ("", "।"), 3 => ("", ":"), 4 => ("'", ""), _ => ("", "") };
+            let wrap = rng.below(12);
+            let (lead, trail): (&str, &str) = match wrap { 0 => ("\"", "\""), 1 => ("(", ")"), 2 => ("", "।"), 3 => ("", ":"), 4 => ("'", ""), 5 => ("", "?\""), 6 => ("(", ")!"), 7 => ("", "!!"), 8 => ("\"(", ")\"।"), 9 => ("", ",,,"), _ => ("", "") };
             let mut typed = String::new();
             let mut type_str = |s: &mut Sess, t: &mut Trace, rep: &mut Report, txt: &str, typed: &mut String| -> bool {
                 for c in txt.chars() {
